@@ -968,6 +968,8 @@ class Molecule(nx.Graph):
         interactions list separately which is not a part of
         the graph and hence does not get deleted.
         """
+        # `nodes` can be a one-shot iterator, and it is needed twice.
+        nodes = list(nodes)
         super().remove_nodes_from(nodes)
         for node in nodes:
             self._remove_interactions_with_node(node)
